@@ -20,6 +20,7 @@ type logWriter struct {
 	sync.Mutex
 	logs     []string
 	index    int
+	full     bool // the ring has wrapped: every slot holds a line
 	handlers map[LogHandler]struct{}
 }
 
@@ -47,7 +48,7 @@ func (l *logWriter) RegisterHandler(lh LogHandler) {
 	l.handlers[lh] = struct{}{}
 
 	// Send the old logs
-	if l.logs[l.index] != "" {
+	if l.full {
 		for i := l.index; i < len(l.logs); i++ {
 			lh.HandleLog(l.logs[i])
 		}
@@ -78,6 +79,9 @@ func (l *logWriter) Write(p []byte) (n int, err error) {
 
 	l.logs[l.index] = string(p)
 	l.index = (l.index + 1) % len(l.logs)
+	if l.index == 0 {
+		l.full = true
+	}
 
 	for lh := range l.handlers {
 		lh.HandleLog(string(p))
